@@ -228,6 +228,18 @@ func (ff *FuncFacts) Prune(assume ...Fact) *FuncFacts {
 			if c == a.Neg() { // condition known false → true edge impossible
 				n.removed[[2]int{b.Index, b.Succs[0].Index}] = true
 			}
+			// x == k1 assumed ⇒ a test x == k2 (k1 ≠ k2 constants) is false
+			if a.Op == "EQ" && a.Pos && c.Op == "EQ" {
+				if x1, k1, ok1 := eqConst(a.Atom); ok1 {
+					if x2, k2, ok2 := eqConst(c.Atom); ok2 && x1 == x2 && k1 != k2 {
+						if c.Pos {
+							n.removed[[2]int{b.Index, b.Succs[0].Index}] = true
+						} else {
+							n.removed[[2]int{b.Index, b.Succs[1].Index}] = true
+						}
+					}
+				}
+			}
 		}
 	}
 	n.recompute()
